@@ -57,6 +57,10 @@ type kvElection struct {
 	ctx    context.Context
 	cancel context.CancelFunc
 
+	// termCancel cancels the context handed to OnPromote for the current term.
+	// Set by becomeLeader, called when the term ends; guarded by mu.
+	termCancel context.CancelFunc
+
 	onPromote func(ctx context.Context, token string)
 	onDemote  func()
 
@@ -381,6 +385,11 @@ func (e *kvElection) becomeLeader(token string, rev uint64) bool {
 		return false
 	}
 
+	// Context of this term, handed to OnPromote: cancelled when the term ends,
+	// by demotion (enterFollowerState) or because the election stops (parent).
+	termCtx, termCancel := context.WithCancel(e.ctx)
+	e.termCancel = termCancel
+
 	fromState := StateInit
 	if s := e.state.Load(); s != nil {
 		if str, ok := s.(string); ok {
@@ -445,7 +454,7 @@ func (e *kvElection) becomeLeader(token string, rev uint64) bool {
 					)
 				}
 			}()
-			promoteCtx, cancel := context.WithCancel(e.ctx)
+			promoteCtx, cancel := context.WithCancel(termCtx)
 			defer cancel()
 			e.onPromote(promoteCtx, token)
 		}()
@@ -548,6 +557,12 @@ func (e *kvElection) enterFollowerState(demote bool) bool {
 	e.isLeader.Store(false)
 	e.state.Store(StateFollower)
 	e.lastTransition.Store(time.Now())
+
+	// Leadership is lost: cancel the context the promotion callback works under.
+	if e.termCancel != nil {
+		e.termCancel()
+		e.termCancel = nil
+	}
 
 	if wasLeader {
 		e.recordLeaderDuration()
